@@ -569,6 +569,9 @@ def slow_device_scenarios(ctx: Ctx, rng, any_op) -> list[dict]:
     return out
 
 
+HOST_ZONES = ["Asia/Jerusalem", "America/New_York", "Asia/Kolkata", "Asia/Kathmandu", "Pacific/Auckland", "America/St_Johns", "UTC"]
+
+
 class C08(ClientProp):
     id = "C08"
     title = "state replies are decoded into exactly what the device reported"
@@ -621,6 +624,11 @@ class C08(ClientProp):
             {"op": "get_state", "a": {}, "replies": [login(r), state1(r)]} if api == 1 else
             ({"op": "get_breeze_state", "a": {}, "replies": [login(r), thermo(r)]} if r.random() < 0.5 else
              {"op": "get_shutter_state", "a": {}, "replies": [login(r), shutter(r)]})))[: ctx.pick(30, 300)]
+        # what a reply means does not depend on where the host is: durations are not wall-clock times (two of three scenarios
+        # run in a host zone east or west of UTC, with whole-hour, half-hour and 45-minute offsets)
+        for k, scn in enumerate(out):
+            if k % 3 and scn.get("zone", "UTC") == "UTC":
+                scn["zone"] = HOST_ZONES[k % len(HOST_ZONES)]
         return out
 
     def owns(self, clause):
